@@ -22,10 +22,20 @@ def available() -> bool:
 
 def run_campaign(job: dict) -> dict:
     """job: oracle, runs, seed, shard, of, empty (bool). Returns a Collector.dump() (with libFuzzer's own figures as notes)."""
+    import shutil
+    import tempfile
+
+    os.makedirs(os.path.join(HERE, ".work", "fuzz"), exist_ok=True)
+    work = tempfile.mkdtemp(prefix=f"{job['oracle']}-{job['tier']}-{job['shard']}-", dir=os.path.join(HERE, ".work", "fuzz"))
+    try:
+        return _run_in(work, job)
+    finally:
+        shutil.rmtree(work, ignore_errors=True)  # scratch: the violating lines live in the result / replay files
+
+
+def _run_in(work: str, job: dict) -> dict:
     from vf.core import Collector, HarnessError
 
-    work = os.path.join(HERE, ".work", "fuzz", f"{job['oracle']}-{job['tier']}-{job['shard']}")
-    os.makedirs(work, exist_ok=True)
     out = os.path.join(work, "result.json")
     if os.path.exists(out):
         os.unlink(out)
@@ -48,8 +58,4 @@ def run_campaign(job: dict) -> dict:
     m = re.search(r"new_units_added:\s*(\d+)", r.stdout)
     if m:
         col.note("libFuzzer corpus units added by coverage feedback", int(m.group(1)))
-    # the corpus directory is scratch: remove it (the saved violating lines live in the result / replay files)
-    import shutil
-
-    shutil.rmtree(os.path.join(work, "corpus"), ignore_errors=True)
     return col.dump()
